@@ -693,6 +693,20 @@ main (int argc, char **argv)
       if (w[0] == "run") cmd_run (w);
       else if (w[0] == "hist") cmd_hist (w);
       else if (w[0] == "parse") cmd_parse (w);
+      else if (w[0] == "words")
+	{
+	  std::ostringstream os;
+	  os << "{\"id\":" << jstr (w[1]) << ",\"status\":\"ok\",\"words\":[";
+	  bool first = true;
+	  for (auto const &b: g_voc->m_voc->get_builtins ())
+	    {
+	      if (! first) os << ",";
+	      first = false;
+	      os << jstr (b.first);
+	    }
+	  os << "]}";
+	  g_rec = os.str ();
+	}
       // Leaks are attributed to the command that caused them.
       int leaked = VERIF_LEAK_CHECK ();
       if (! g_rec.empty ())
